@@ -50,6 +50,8 @@ type Engine struct {
 
 	smu         sync.Mutex
 	solverTotal SolverStats
+	fastDecided int
+	noFastPath  bool
 
 	funcsExecuted sync.Map // *ssa.Function -> true (repo functions reached)
 	rtErrType     types.Type
